@@ -55,6 +55,7 @@ def gen_holder(rng):
 
 class C19(object):
     id = 'C19'
+    anchors = ('TimeSeriesHolder.GetSeriesList', 'TimeSeriesHolder.GenerateCSVtext', 'EquationSolver.GenerateCSVtext')
     title = 'Tab-delimited output is a faithful table of the results'
     rule = ('cases are batches of %d synthetic TimeSeriesHolder objects (0-40 names incl. any subset of the priority '
             'names, ragged lengths incl. 0, ints/floats of any magnitude and sign incl. inf/nan, 11 format strings) '
